@@ -195,6 +195,22 @@ MAX_HANGS = 12
 
 
 def with_deadline(seconds, fn, *a, **kw):
+    """Deadline with confirmation: a first alarm is not believed (a full garbage collection over a large heap or
+    a cold import can burn seconds of CPU inside an innocent call); the library's memos are cleared, garbage is
+    collected and the call is repeated with four times the budget.  Only a second alarm is a hang."""
+    try:
+        return _with_deadline(seconds, False, fn, *a, **kw)
+    except Deadline:
+        import gc
+        try:
+            clear_typelib_caches()
+        except Exception:
+            pass
+        gc.collect()
+        return _with_deadline(4 * seconds, True, fn, *a, **kw)
+
+
+def _with_deadline(seconds, count, fn, *a, **kw):
     """Run fn under a CPU-time alarm (ITIMER_PROF: the time this process actually computes, so a loaded machine
     cannot turn a slow call into a false "non-termination"); pure-Python non-termination surfaces as Deadline.
     After MAX_HANGS hangs in one run further calls are not attempted (each would cost the full
@@ -204,7 +220,8 @@ def with_deadline(seconds, fn, *a, **kw):
         raise Deadline("skipped: too many hangs in this run")
 
     def _alarm(signum, frame):
-        HANGS[0] += 1
+        if count:
+            HANGS[0] += 1
         raise Deadline(f"no result after {seconds}s of CPU time")
     old = signal.signal(signal.SIGPROF, _alarm)
     signal.setitimer(signal.ITIMER_PROF, seconds, 1.0)
